@@ -287,6 +287,65 @@ def ob_meta(ctx, encs):
     return verdict(ctx, [('records', bool(ok_))], witness=wit, sample=lambda m: {'sid': sid, 'where': where, 'enc': eff, 'json': js})
 
 
+def ob_padded(ctx, lengths):
+    """one header of a five-section file is padded (by an option the specification allows but does not define) so that
+    the header line without its newline has a chosen length around multiples of the reader's read-ahead block; LF and
+    CRLF header lines; a symbolic diff follows"""
+    import ref.spec as S
+    crlf = bool(ctx.choose(0, 1, 'crlf-headers'))
+    g = Gen(crlf)
+    which = ctx.pick('padded-header', ['diffx', '.change', '..file', '...meta', '...diff'])
+    L = ctx.pick('header-len', lengths)
+    body = sym_bytes(ctx, 'c', 2)
+    raw = mk_seq(tuple(body.el) + (10,), bytes)
+    base = {'diffx': [('version', '1.0'), ('encoding', 'utf-8')], '.change': [], '..file': [('encoding', 'latin-1')],
+            '...meta': [('format', 'json'), ('length', 9)], '...diff': [('length', 3)]}
+
+    def opts_for(sid):
+        o = [x for x in base[sid] if x[0] != 'length']
+        if sid != which:
+            return o
+        cur = len(render_header(sid, base[sid], None, False)) - 1
+        extra = len(', x-pad=') if base[sid] else len(' x-pad=')
+        k = L - cur - extra
+        if k < 1:
+            return None
+        return o + [('x-pad', 'p' * k)]
+    allo = {sid: opts_for(sid) for sid in base}
+    if any(v is None for v in allo.values()):
+        return skip('header cannot be padded to %d' % L)
+    wit = lambda m: {'kind': 'padded', 'data': model_bytes(m, g.data()), 'raw': model_bytes(m, raw), 'sid': which}
+    g.container('diffx', allo['diffx'])
+    g.container('.change', allo['.change'])
+    g.container('..file', allo['..file'])
+    try:
+        g.content('...meta', allo['...meta'], b'{"a": 1}\n')
+        g.content('...diff', allo['...diff'], raw)
+        malformed = None
+    except S.Malformed as e:
+        malformed = str(e)
+    data = g.data()
+    recs, err = _compare(ctx, g, data, None, wit)
+    if malformed is not None:
+        if err is None:
+            return viol('accepts-malformed-content(%s)' % malformed, wit(ctx.model()))
+        return ok(note='both reject')
+    if err is not None:
+        return viol('rejects-wellformed:%s' % type(err).__name__, dict(wit(ctx.model()), error=str(err)[:200]))
+    if len(recs) != len(g.expected):
+        return viol('record-count', wit(ctx.model()))
+    props = []
+    for r, e in zip(recs, g.expected):
+        for k in ('section', 'level', 'type', 'line'):
+            props.append((k, value_eq(r.get(k), e[k])))
+        props.append(('options', value_eq(dict(r['options'].items()), e['options'])))
+        if 'diff' in e:
+            props.append(('diff', seq_eq(r.get('diff'), e['diff'])))
+        if 'metadata' in e:
+            props.append(('metadata', r.get('metadata') == json.loads(e['metadata'])))
+    return verdict(ctx, props, witness=wit, sample=lambda m: dict(wit(m)))
+
+
 def ob_meta_bytes(ctx, W):
     """a metadata section whose JSON text contains a window of symbolic raw bytes inside a string literal: the reader
     must accept exactly when the bytes decode under the effective encoding to valid JSON (REF_READ + the JSON grammar:
@@ -431,6 +490,13 @@ def obligations(tier):
     obs.append(Ob('meta', ob_meta, dict(encs=_enc_cfg(E8)), must_reach=['DiffXReader.iter_sections'],
                   desc='metadata sections: JSON catalogue (compact / pretty) x encodings x levels x header styles',
                   bounds={'catalogue': len(JSONS)}))
+    from harness.C17 import block_lengths
+    quick = tier == 'quick'
+    PL = block_lengths([94, 95, 96, 97, 191, 192] if quick else
+                       [93, 94, 95, 96, 97, 98, 127, 128, 129, 190, 191, 192, 193, 255, 256, 287, 288, 383, 384, 1055, 1056], quick)
+    obs.append(Ob('padded-headers', ob_padded, dict(lengths=PL), must_reach=['DiffXReader.iter_sections'], path_timeout=30,
+                  desc='each of the five headers of a generated file padded (unknown option) to %s bytes, LF and CRLF header '
+                       'lines, followed by a symbolic diff: reader == REF_READ' % PL, bounds={'header_len': PL}))
     W = 1 if tier == 'quick' else 2
     obs.append(Ob('meta[symbolic-bytes]', ob_meta_bytes, dict(W=W), must_reach=['DiffXReader.iter_sections'], path_timeout=30,
                   desc='metadata whose JSON text has a window of 1..%d symbolic code units (raw bytes) inside a string, a key '
